@@ -179,6 +179,15 @@ pub struct Datagram {
     pub bytes: Hex,
 }
 
+/// A byte string handed to the *uncompressed* deserialisers (a mode the
+/// pinned tree does not offer: it answers `unimplemented!()`).
+#[derive(Clone, Debug, Serialize, Deserialize, PartialEq, Eq)]
+pub struct Uncompressed {
+    pub bytes: Hex,
+    pub as_: ElemAs,
+    pub rplan: IoPlan,
+}
+
 #[derive(Clone, Debug, Default, Serialize, Deserialize, PartialEq, Eq)]
 pub struct IoRun {
     pub pool: Vec<PoolOp>,
@@ -186,11 +195,14 @@ pub struct IoRun {
     pub records: Vec<Record>,
     pub chan: Vec<ChanFault>,
     pub datagrams: Vec<Datagram>,
+    #[serde(default)]
+    pub uncompressed: Vec<Uncompressed>,
 }
 
 impl IoRun {
     pub fn fault_count(&self) -> usize {
         self.chan.len()
+            + self.uncompressed.iter().map(|u| u.rplan.events.len()).sum::<usize>()
             + self
                 .records
                 .iter()
